@@ -28,6 +28,7 @@ from __future__ import annotations
 from engines.prelude import reach, realize, vacuous
 
 from harness import _C09_lib as L
+from harness._C09_known import KF_D1, KF_D2, KF_D3, KF_D4  # noqa: F401  (named by the predicates of known_findings.d/C09.jsonl)
 
 PROPERTY = "C09"
 NF = len(L.FUNCS)
@@ -43,7 +44,7 @@ def _slice(f, a, b, c, mask, parts):
 
 def h_sound(f: int, a: int, b: int, c: int, mask: int) -> bool:
     """
-    pre: 0 <= f < 20 and -2 <= a <= 2 and -2 <= b <= 2 and 0 <= c < 8 and 4 <= mask <= 7
+    pre: 0 <= f < 29 and -2 <= a <= 2 and -2 <= b <= 2 and 0 <= c < 4 and 4 <= mask <= 7
     post: _
     """
     return _slice(f, a, b, c, mask, 3)
@@ -51,7 +52,7 @@ def h_sound(f: int, a: int, b: int, c: int, mask: int) -> bool:
 
 def h_complete(f: int, a: int, b: int, c: int, mask: int) -> bool:
     """
-    pre: 0 <= f < 20 and -2 <= a <= 2 and -2 <= b <= 2 and 0 <= c < 8 and 4 <= mask <= 7
+    pre: 0 <= f < 29 and -2 <= a <= 2 and -2 <= b <= 2 and 0 <= c < 8 and 4 <= mask <= 7
     post: _
     """
     return _slice(f, a, b, c, mask, 4)
@@ -59,7 +60,7 @@ def h_complete(f: int, a: int, b: int, c: int, mask: int) -> bool:
 
 def h_sound_t(f: int, a: int, b: int, c: int, mask: int) -> bool:
     """
-    pre: 0 <= f < 20 and -3 <= a <= 3 and -3 <= b <= 3 and 0 <= c < 64 and 4 <= mask <= 7
+    pre: 0 <= f < 29 and -3 <= a <= 3 and -3 <= b <= 3 and 0 <= c < 64 and 4 <= mask <= 7
     post: _
     """
     return _slice(f, a, b, c, mask, 3)
@@ -67,7 +68,7 @@ def h_sound_t(f: int, a: int, b: int, c: int, mask: int) -> bool:
 
 def h_complete_t(f: int, a: int, b: int, c: int, mask: int) -> bool:
     """
-    pre: 0 <= f < 20 and -3 <= a <= 3 and -3 <= b <= 3 and 0 <= c < 64 and 4 <= mask <= 7
+    pre: 0 <= f < 29 and -3 <= a <= 3 and -3 <= b <= 3 and 0 <= c < 64 and 4 <= mask <= 7
     post: _
     """
     return _slice(f, a, b, c, mask, 4)
@@ -75,7 +76,7 @@ def h_complete_t(f: int, a: int, b: int, c: int, mask: int) -> bool:
 
 def h_exec(f: int, a: int, b: int, shape: int, akind: int) -> bool:
     """
-    pre: 0 <= f < 20 and -2 <= a <= 2 and -2 <= b <= 2 and 0 <= shape <= 1 and 0 <= akind <= 3
+    pre: 0 <= f < 29 and -2 <= a <= 2 and -2 <= b <= 2 and 0 <= shape <= 1 and 0 <= akind <= 3
     post: _
     """
     f, a, b, shape, akind = realize((f, a, b, shape, akind))
@@ -84,16 +85,17 @@ def h_exec(f: int, a: int, b: int, shape: int, akind: int) -> bool:
 
 META = {
     "level": "model_checking",
-    "claim": "Bounded, solver-enumerated concrete structures: for each of the 20 functions of corpus/C09_funcs.py (assignments, "
+    "claim": "Bounded, solver-enumerated concrete structures: for each of the 29 entry functions of corpus/C09_funcs.py (assignments, "
              "arithmetic, if/elif/else, while/for, nested loops, break/continue, early return, nested and recursive calls, methods, "
-             "attribute and subscript stores/loads, aliasing, tuple unpacking, globals, augmented assignment, and/or/conditional "
-             "expressions), every argument pair in [-2,2]^2 (thorough [-3,3]^2) and each of the last 8 (thorough 64) returns/stores/"
-             "conditional jumps of the real instruction trace as slicing criterion: the real DynamicSlicer's slice (i) maps, through "
+             "attribute and subscript stores/loads, aliasing, tuple returns and unpacking, globals read and written across calls, "
+             "augmented assignment, and/or/conditional expressions, chained comparisons, is-None tests, raise), every argument pair "
+             "in [-2,2]^2 (thorough [-3,3]^2) and each of the last 8 (soundness in quick: 4; thorough: 64) returns/stores/conditional "
+             "jumps of the real instruction trace (and the last instruction before a propagating exception) as slicing criterion: the real DynamicSlicer's slice (i) maps, through "
              "the real map_instructions_to_lines, only to lines sys.monitoring reports as executed by the uninstrumented function, "
              "(ii) contains only instructions whose byte offsets were executed, contains its criterion, lists nothing twice, and "
              "(iii) contains every line of the backward closure of an independent dynamic dependence graph (certain data and "
              "control dependences only).  The same for the real pipeline: a real TestCase (two int statements, a call of the "
-             "corpus function, optionally a second call consuming its result) with a real Object/Float assertion, run by the real "
+             "corpus function, optionally a second call consuming its result) with a real Object/Float assertion (an ExceptionAssertion when the call raises), run by the real "
              "TestCaseExecutor with RemoteStatementSlicingObserver + RemoteAssertionExecutionObserver on the module instrumented "
              "through the real import hook: trace.checked_lines (compute_statement_checked_lines) and the lines behind "
              "compute_assertion_checked_coverage were executed, contain the dependence closure of the returned value, and the "
@@ -113,14 +115,14 @@ META = {
                   "compute_statement_checked_lines/compute_assertion_checked_coverage/_cleanse_included_implicit_return_none",
                   "RemoteStatementSlicingObserver", "RemoteAssertionExecutionObserver + ExecutionTracer.track_assertion_position",
                   "TestCaseExecutor.execute (instrumented statements)"],
-    "bounds": {"corpus": "corpus/C09_funcs.py, 20 entry functions + 9 helpers/methods", "arguments": "quick [-2,2]^2, thorough [-3,3]^2 "
-               "(executor path [-2,2]^2)", "criteria": "the last 8 (quick) / 64 (thorough) return/store/conditional-jump instructions of "
-               "the run part of the trace", "metric sets": "CHECKED alone and BRANCH+LINE+CHECKED", "test cases": "shape 0: one call; "
+    "bounds": {"corpus": "corpus/C09_funcs.py, 29 entry functions + 12 helpers/methods", "arguments": "quick [-2,2]^2, thorough [-3,3]^2 "
+               "(executor path [-2,2]^2)", "criteria": "the last 8 (quick; soundness 4) / 64 (thorough) return/store/conditional-jump instructions of "
+               "the run part of the trace, plus the last traced instruction of a run that raised", "metric sets": "CHECKED alone and BRANCH+LINE+CHECKED", "test cases": "shape 0: one call; "
                "1: call + inc(result); assertion kinds: Object, Float, none, Object on an earlier int variable"},
-    "outside": ["programs outside the corpus fragment: exceptions/try, with, generators, comprehensions (known SIGSEGV under CHECKED "
+    "outside": ["programs outside the corpus fragment: try/except/finally (slicing across a caught exception), with, generators, comprehensions (known SIGSEGV under CHECKED "
                 "on 3.12, C01 finding), closures/nested functions, classes with inheritance/descriptors, imports inside functions, "
                 "container-mutating method calls such as list.append (documented limitation, tests/slicer/test_expected_failures.py)",
-                "exception assertions (track_exception_assertion)", "slicing time budget (SlicingTimeoutException)",
+                "functions that return None implicitly (_cleanse_included_implicit_return_none)", "slicing time budget (SlicingTimeoutException)",
                 "precision of slices (extra instructions are allowed by the property)", "Python versions other than 3.12",
                 "subprocess executor", "dependences the oracle deliberately does not claim: operands of and/or/conditional "
                 "expressions after the first, elements of containers reached through an alias"],
@@ -139,7 +141,7 @@ def obligations(tier: str):
     T = 300 if q else 2400
     fs = list(range(NF))
     if q:
-        # a, b in [-2, 2]; the last 8 criteria; soundness on BRANCH+LINE+CHECKED, completeness on CHECKED alone
+        # a, b in [-2, 2]; soundness: the last 4 criteria on BRANCH+LINE+CHECKED; completeness: the last 8 on CHECKED alone
         return [Chx("sound", h_sound, timeout=T, path_timeout=120, fix={"mask": 7}, split={"f": fs}),
                 Chx("complete", h_complete, timeout=T, path_timeout=120, fix={"mask": 4}, split={"f": fs}),
                 Chx("exec", h_exec, timeout=T, path_timeout=120, fix={"shape": 0, "akind": 0}, split={"f": fs}),
